@@ -988,9 +988,8 @@ def indicator_values(view, d):
             return None
         due = {t: view.tasks[t]["args"]["due_date"] for t in ts}
         if cls == "IndicatorTardiness":
-            if any(view.tasks[t]["args"].get("priority", 1) != 1 for t in ts):
-                return None
-            return {sum(max(0, view.end[t] - due[t]) for t in ts)}
+            # "the weighted sum of total tardiness": each task's tardiness counts priority times
+            return {sum(max(0, view.end[t] - due[t]) * view.tasks[t]["args"].get("priority", 1) for t in ts)}
         if cls == "IndicatorEarliness":
             return {sum(max(0, due[t] - view.end[t]) for t in ts)}
         if cls == "IndicatorNumberOfTardyTasks":
